@@ -7,6 +7,7 @@ executes before which call); oracles use only that and the public algebra --
 never the AST walker.  Every program is a pure function of its case seed.
 """
 import functools
+import inspect
 import itertools
 import random
 import textwrap
@@ -101,6 +102,7 @@ def sink(*a, **k): return None
 @contextlib.contextmanager
 def ctx(v=None):
     yield v
+def alt_callee(p, q=1, *, r=2): return None
 def passthrough(f):
     return f
 '''
@@ -184,6 +186,12 @@ def gen_program(case_seed, force=None):
                 taints.append(dict(kind=kind, label=label, cls=cls, pos=rnd.randint(0, ncalls)))
     # pos = index of the call the taint statement precedes (ncalls = after the last call)
     decoys_head = [rnd.choice(DECOYS).format() for _ in range(rnd.choice((0, 0, 1, 2)))]
+    # reading another attribute of the object the callee is an attribute of (as an ordinary argument of
+    # an unrelated call) changes nothing
+    if route == 'attr' and rnd.random() < 0.5:
+        decoys_head.append(rnd.choice(('sink(ns.label)', 'sink(q_=ns.sub.label)', 'x_local = ns.sub.label', 'sink(ns.sub.label, ns.label)')))
+    if route in ('selfmethod', 'default_param') and rnd.random() < 0.5:
+        decoys_head.append(rnd.choice(('sink(self.label)', 'sink(q_=self.label)', 'x_local = self.label')))
     for c in calls:
         c['decoy_after'] = rnd.choice(DECOYS).format() if rnd.random() < 0.25 else None
     meta = dict(case_seed=case_seed, route=route, po=po, ova=ova, ovk=ovk, calls=calls, taints=taints,
@@ -350,17 +358,19 @@ def assemble(route, po, calls, body, decorate=False):
         src += defs + deco + 'def outer(%s):\n%s\ntarget = outer\nraw_outer = outer\n' % (ostr, ind(body))
         src += 'callee_objs = [%s]\n' % ', '.join('callee%d' % i for i in range(n))
     elif route == 'closure':
+        # module globals named like the closure variables, bound to unrelated functions: the closure wins
+        src += ''.join('def c%d(zz1, zz2, zz3, zz4): return None\n' % i for i in range(n))
         src += defs + 'def make():\n' + ''.join('    c%d = callee%d\n' % (i, i) for i in range(n))
         src += '    def outer(%s):\n%s\n    return outer\ntarget = make()\nraw_outer = target\n' % (ostr, ind(body, 2))
         src += 'callee_objs = [%s]\n' % ', '.join('callee%d' % i for i in range(n))
     elif route == 'attr':
-        src += defs + 'class NS(object): pass\nns = NS(); ns.sub = NS()\n'
+        src += defs + 'class NS(object): pass\nns = NS(); ns.sub = NS(); ns.label = 1; ns.sub.label = 2\n'
         src += ''.join('ns.sub.fn%d = callee%d\n' % (i, i) for i in range(n))
         src += 'def outer(%s):\n%s\ntarget = outer\nraw_outer = outer\n' % (ostr, ind(body))
         src += 'callee_objs = [%s]\n' % ', '.join('callee%d' % i for i in range(n))
     elif route == 'selfmethod':
         selfo = 'self' + (', ' + ostr if ostr else '')
-        src += 'class C(object):\n'
+        src += 'class C(object):\n    label = 1\n'
         for i, c in enumerate(calls):
             r = sigs.render(c['pi'])
             src += '    def callee%d(%s): return None\n' % (i, 'self' + (', ' + r if r else ''))
@@ -377,7 +387,7 @@ def assemble(route, po, calls, body, decorate=False):
         at = next((k for k, p in enumerate(lst) if p[1] == VK), len(lst))
         lst.insert(at, ('func', KO, 'callee0', None))
         fo = sigs.render(tuple(lst))
-        src += defs + 'class C(object):\n    def outer(self, %s):\n%s\nobj = C()\ntarget = obj.outer\nraw_outer = C.outer\n' % (fo, ind(body, 2))
+        src += defs + 'class C(object):\n    label = 1\n    def outer(self, %s):\n%s\nobj = C()\ntarget = obj.outer\nraw_outer = C.outer\n' % (fo, ind(body, 2))
         src += 'callee_objs = [callee0]\n'
     elif route == 'wraps':
         src += defs + 'def deco(fn):\n    @functools.wraps(fn)\n    def outer(%s):\n%s\n    return outer\n' % (ostr, ind(body, 2))
@@ -595,6 +605,22 @@ def check_program(ctx, case_seed, want=('C05', 'C06', 'C07'), force=None, varian
             if ctx.counters['auto.generator_error'] > 20 else None
         return None
     target = g['target']
+    pre = random.Random(case_seed ^ 0x9e3779b9)
+    if pre.random() < 0.35:
+        # other retrievals happen first, on the objects around the wrapper (its class-level / undecorated form,
+        # the callees, the wrapper itself, with and without discovery): whatever they leave behind must not matter
+        ctx.count('auto.pre_queries')
+        w['retrieved_before'] = []
+        for label, o in [('raw_outer', g.get('raw_outer'))] + [('callee', c) for c in g.get('callee_objs', ())] + [('target', target)]:
+            if o is None or pre.random() < 0.4:
+                continue
+            for retr in (sigtools.signature, inspect.signature, lambda x: sigtools.signature(x, auto=False)):
+                if pre.random() < 0.5:
+                    try:
+                        retr(o)
+                    except Exception:
+                        pass
+            w['retrieved_before'].append(label)
     try:
         S = sigtools.signature(target)
     except Exception as e:
@@ -688,7 +714,56 @@ def check_program(ctx, case_seed, want=('C05', 'C06', 'C07'), force=None, varian
                                       dict(w, discovered=show(S)), rp)
         if discovered:
             execute_soundness(ctx, meta, g, S, w, rp)
+    if ('C05' in want or 'C06' in want) and force is None:
+        requery_after_rebinding(ctx, meta, g, want, w, rp)
     return result
+
+
+REBINDABLE = ('global', 'attr', 'inner_partial')
+
+
+def requery_after_rebinding(ctx, meta, g, want, w, rp):
+    """The callee is looked up late (a global, an attribute): after it is rebound to a function with
+    another signature the same wrapper object forwards to that one.  Retrieval now must give what
+    it gives for a fresh program written against the new callee -- nothing remembered from before."""
+    import copy
+    import sigtools
+    from sigtools import signatures
+    if meta['route'] not in REBINDABLE or random.Random(meta['case_seed'] ^ 0x51ed27).random() > 0.6:
+        return
+    c0 = meta['calls'][0]
+    if c0['star'] != 'own' and c0['dstar'] != 'own':
+        return      # a call that forwards nothing has to succeed by itself: it was written for the old callee
+    alt = g['alt_callee']
+    if meta['route'] == 'attr':
+        g['ns'].sub.fn0 = alt
+    else:
+        g['callee0'] = alt
+    g['callee_objs'] = [alt] + list(g['callee_objs'][1:])
+    m2 = copy.deepcopy(meta)
+    m2['calls'][0]['pi'] = (('p', PK, None, None), ('q', PK, '1', None), ('r', KO, '2', None))
+    target = g['target']
+    ctx.count('auto.requeried_after_rebinding')
+    w2 = dict(w, rebound='callee of the first call rebound to def alt_callee(p, q=1, *, r=2) after the first retrieval')
+    try:
+        S2 = sigtools.signature(target)
+    except Exception as e:
+        for p in want:
+            if p in ('C05', 'C06'):
+                ctx.violation(p, 'AutoBoundary', 'retrieval-raises-%s' % type(e).__name__,
+                              'sigtools.signature raised %s after the callee was rebound: %s' % (type(e).__name__, e),
+                              dict(w2, exception=repr(e)), rp)
+        return
+    plain = signatures.signature(target)
+    if 'C06' in want:
+        alts = expected_alternatives(m2, g)
+        if not any(matches(S2, a, m2, g, plain) for tag, a in alts):
+            ctx.violation('C06', 'AutoBoundary', 'stale-after-rebinding@' + meta['route'],
+                          'after the callee was rebound, the discovered signature is not the declaration of the forwarding to the new callee',
+                          dict(w2, discovered=show(S2),
+                               declared=[(tag, show(a) if not isinstance(a, str) else 'plain: ' + show(plain)) for tag, a in alts][:4]), rp)
+    if 'C05' in want and sig_key(S2) != sig_key(plain):
+        execute_soundness(ctx, m2, g, S2, w2, rp)
 
 
 def classify_nonname(ctx, meta, g, S, plain):
